@@ -51,7 +51,8 @@ def run(v, tier):
             nb += 1
             continue
         for ph in r['phases']:
-            cases.append({'fam': 'prettybin', 'module': q.get('name') or q.get('module') or q.get('mmtext', '')[-300:], 'optimize': q['optimize'], 'phase': ph['phase'], 'bytes': ph['bytes'], 'steps': ph['steps']})
+            cases.append({'fam': 'prettybin', 'module': q.get('name') or q.get('module') or q.get('mmtext', '')[-300:], 'optimize': q['optimize'], 'phase': ph['phase'], 'bytes': ph['bytes'], 'steps': ph['steps'],
+                          'pretty_ok': r.get('pretty_ok', True)})
     v.cov['module_serialisations_compared'] = len(preqs) - nb
     v.cov['modules_not_serialisable'] = nb
     res, _ = funcs.run_blocks(v, 'C19', 'Trace_Render', 'c19-trace', cases, '', bs=4)
